@@ -1,3 +1,4 @@
 pub mod decode;
+pub mod operand;
 pub mod reflect;
 pub mod spirv;
